@@ -44,10 +44,10 @@ Lex(x, y) == x[1] < y[1] \/ (x[1] = y[1] /\ x[2] < y[2])
 (***************************************************************************)
 (* Abstract projections of a set of pairs.                                 *)
 (***************************************************************************)
-RowSet(E, r) == { e[2] : e \in { x \in E : x[1] = r } }
-ColSet(E, c) == { e[1] : e \in { x \in E : x[2] = c } }
-RowSeq(E, r) == SetToSortSeq(RowSet(E, r), <)
-ColSeq(E, c) == SetToSortSeq(ColSet(E, c), <)
+RowSet(E, r, C) == { c \in 0 .. (C - 1) : <<r, c>> \in E }
+ColSet(E, c, R) == { r \in 0 .. (R - 1) : <<r, c>> \in E }
+RowSeq(E, r, C) == SetToSortSeq(RowSet(E, r, C), <)
+ColSeq(E, c, R) == SetToSortSeq(ColSet(E, c, R), <)
 
 (***************************************************************************)
 (* The linked structure.                                                   *)
@@ -152,6 +152,7 @@ Enabled(S_, o) ==
           [] o.op = "d2s" -> DnLive(S_, o.a) /\ SpLive(S_, o.b) /\ DA.R <= B.R /\ DA.C <= B.C
           [] o.op = "dalloc" -> o.a \in 0 .. (NDense - 1) /\ DA.R = 0 /\ o.r >= 1 /\ o.c >= 1
           [] o.op \in {"dflip", "dset"} -> DnLive(S_, o.a) /\ o.r \in 0 .. (DA.R - 1) /\ o.c \in 0 .. (DA.C - 1)
+          [] o.op = "dload" -> DnLive(S_, o.a) /\ Len(o.v) = Len(o.w) /\ InRange(o.v, DA.R) /\ InRange(o.w, DA.C)
           [] o.op = "dfree" -> DnLive(S_, o.a)
           [] OTHER -> FALSE
 
@@ -179,6 +180,7 @@ Apply(S_, o) ==
           [] o.op = "dalloc" -> [S_ EXCEPT !.dn[o.a + 1] = [R |-> o.r, C |-> o.c, B |-> {}]]
           [] o.op = "dflip"  -> [S_ EXCEPT !.dn[o.a + 1].B = SymDiff(@, {<<o.r, o.c>>})]
           [] o.op = "dset"   -> [S_ EXCEPT !.dn[o.a + 1].B = IF o.b # 0 THEN @ \cup {<<o.r, o.c>>} ELSE @ \ {<<o.r, o.c>>}]
+          [] o.op = "dload"  -> [S_ EXCEPT !.dn[o.a + 1].B = { <<o.v[i], o.w[i]>> : i \in DOMAIN o.v }]
           [] o.op = "dfree"  -> [S_ EXCEPT !.dn[o.a + 1] = NilD]
 
 (***************************************************************************)
@@ -230,8 +232,8 @@ MatAbstraction(m) ==
 
 (* each row / column traversal lists exactly that row's / column's entries in increasing order *)
 MatTraversals(m) ==
-    /\ \A r \in 0 .. (m.R - 1) : RowCols(m, r) = RowSeq(m.E, r) /\ \A k \in DOMAIN m.row[r + 1] : RowOf(m, m.row[r + 1][k]) = r
-    /\ \A c \in 0 .. (m.C - 1) : ColRows(m, c) = ColSeq(m.E, c) /\ \A k \in DOMAIN m.col[c + 1] : ColOf(m, m.col[c + 1][k]) = c
+    /\ \A r \in 0 .. (m.R - 1) : RowCols(m, r) = RowSeq(m.E, r, m.C) /\ \A k \in DOMAIN m.row[r + 1] : RowOf(m, m.row[r + 1][k]) = r
+    /\ \A c \in 0 .. (m.C - 1) : ColRows(m, c) = ColSeq(m.E, c, m.R) /\ \A k \in DOMAIN m.col[c + 1] : ColOf(m, m.col[c + 1][k]) = c
 
 (* find agrees with membership and returns the entry of that position *)
 MatFind(m) ==
